@@ -1,8 +1,34 @@
-(* C11 -- placeholder until Proofs/WriterProofs.v is in place. *)
-From Coq Require Import ZArith List.
-From DRF Require Import Model.WriterCore.
+(* C11 -- Multi-session continuity without overwrite: the model-level safety core. *)
+From Coq Require Import ZArith List Bool.
+From DRF Require Import Model.WriterCore Proofs.WriterMono Proofs.WriterInv.
+Import ListNotations.
 Local Open Scope Z_scope.
 
-Theorem C11_close_without_open_file_partial : forall st, w_openf st = None -> w_files (close_writer st) = w_files st.
-Proof. intros st H. unfold close_writer, finalize; cbn. rewrite H. reflexivity. Qed.
-Print Assumptions C11_close_without_open_file_partial.
+(* For every recording -- write calls with arbitrary block arrays in any mode, closes, and restarts
+   with any start index (later than, earlier than or inside recorded periods) -- the list of
+   finalized files only ever grows at its end: no finalized file is replaced, altered or removed. *)
+Theorem C11_finalized_never_touched : forall ops cs,
+  exists t, w_files (snd (fold_left wstep ops cs)) = w_files (snd cs) ++ t.
+Proof. exact finalized_never_touched. Qed.
+Print Assumptions C11_finalized_never_touched.
+
+Theorem C11_finalized_file_stable : forall ops cs i a,
+  nth_error (w_files (snd cs)) i = Some a ->
+  nth_error (w_files (snd (fold_left wstep ops cs))) i = Some a.
+Proof. exact finalized_file_stable. Qed.
+Print Assumptions C11_finalized_file_stable.
+
+(* a write that would need a file whose final name exists is rejected; it creates nothing, leaves
+   the cursor and the failure flag as they were (so the writer stays usable), and only finalizes the
+   file that was open *)
+Theorem C11_existing_final_refused : forall c st sw g vec,
+  c_chunk c = true -> vcfg c ->
+  let K := c_start c + (g + sw) in
+  let F := Fk c K in
+  0 <= sw < zlen vec -> ((sw =? 0) && (g <? w_gi st)) = false ->
+  (match w_cur st with Some f => (f =? F) && w_open st | None => false end) = false ->
+  has_final F (finalize st) = true ->
+  exists st', write_samples_to_file c st sw [(g, 0)] vec = (Fail, st') /\
+              w_files st' = finalize st /\ w_openf st' = None /\ w_failed st' = w_failed st /\ w_gi st' = w_gi st.
+Proof. exact existing_final_refused. Qed.
+Print Assumptions C11_existing_final_refused.
